@@ -214,6 +214,7 @@ V_HARNESS(h_pfc_step)
 /* FOREIGN_HDR 1: before every page header of ours but the first, the header of ANOTHER page of the same magazine is fed (what a
  * serial mode transmission looks like: other pages lie between two transmissions of ours); 2: the header of a page of another
  * magazine is fed right after every page header of ours (parallel mode, C11 = 0: it does not end our page, EN 300 706 9.3.1.3). */
+/* FOREIGN_HDR 3: as 1, followed by packet X/1 of that foreign page. */
 #ifndef FOREIGN_HDR
 #define FOREIGN_HDR 0
 #endif
@@ -353,13 +354,20 @@ V_HARNESS(h_pfc_seq)
       r = vbi_pfc_demux_feed(&PX, unrel);
       V_ASSERT(r, "pfc_unrelated_returns_true");
     }
-    if ((FOREIGN_HDR == 1 && j == 0 && g > 0) || (FOREIGN_HDR == 2 && j == 1)) {
-      unsigned fm = (FOREIGN_HDR == 1) ? (MAG) : (((MAG) + 1) & 7), fp = (FOREIGN_HDR == 1) ? ((PG) ^ 0x01) : (PG);
+    if (((FOREIGN_HDR == 1 || FOREIGN_HDR == 3) && j == 0 && g > 0) || (FOREIGN_HDR == 2 && j == 1)) {
+      unsigned fm = (FOREIGN_HDR != 2) ? (MAG) : (((MAG) + 1) & 7), fp = (FOREIGN_HDR != 2) ? ((PG) ^ 0x01) : (PG);
       in_bytes(unrel, 42);			/* sub-code, control bits, header text: arbitrary */
       unrel[0] = ref_ham8(fm); unrel[1] = ref_ham8(0);
       unrel[2] = ref_ham8(fp & 15); unrel[3] = ref_ham8(fp >> 4);
       r = vbi_pfc_demux_feed(&PX, unrel);
       V_ASSERT(r, "pfc_unrelated_returns_true");
+#if FOREIGN_HDR == 3
+      /* ... and a row X/1 of that foreign page (same magazine, arbitrary body): a whole unrelated page between two pages of ours */
+      in_bytes(unrel, 42);
+      unrel[0] = ref_ham8((MAG) | 8); unrel[1] = ref_ham8(0);
+      r = vbi_pfc_demux_feed(&PX, unrel);
+      V_ASSERT(r, "pfc_unrelated_returns_true");
+#endif
     }
     in_bytes(pkt, 42);				/* header bytes 8..41: control bits, header text: don't care */
     if (j == 0) {
